@@ -352,6 +352,43 @@ impl Gen {
         Op::Lc { lcs, queries }
     }
 
+    /// The C06 statement singles out point labels sharing a point value, constant terms and LCs
+    /// asked at several points: make those shapes frequent (applied to the LC ops of a scenario).
+    pub fn lc_stress(&mut self, polys: &[PolySpec], points: &mut Vec<PointSpec>, ops: &mut [Op]) {
+        if !ops.iter().any(|o| matches!(o, Op::Lc { .. })) {
+            return;
+        }
+        if self.r.gen_bool(0.45) {
+            if points.len() < 2 {
+                let v = points[0].value_id;
+                points.push(PointSpec { label: "w".into(), value_id: v });
+            } else {
+                let v = points[0].value_id;
+                let k = self.r.gen_range(1..points.len());
+                points[k].value_id = v;
+            }
+        }
+        for op in ops.iter_mut() {
+            if let Op::Lc { lcs, queries } = op {
+                if self.r.gen_bool(0.5) {
+                    for lc in lcs.iter_mut() {
+                        let single_bounded = lc.terms.len() == 1 && lc.terms[0].1.map_or(false, |p| polys[p].degree_bound.is_some());
+                        if !single_bounded && !lc.terms.iter().any(|t| t.1.is_none()) {
+                            lc.terms.push((Coeff::Rand(self.r.gen_range(0..1000)), None));
+                        }
+                    }
+                    for l in 0..lcs.len() {
+                        for z in 0..points.len() {
+                            if !queries.contains(&(l, z)) && self.r.gen_bool(0.7) {
+                                queries.push((l, z));
+                            }
+                        }
+                    }
+                }
+            }
+        }
+    }
+
     /// does the workload allow an LC op at all (some polynomial an LC may mention)?
     pub fn any_op(&mut self, polys: &[PolySpec], n_points: usize, p_lc: f64, p_batch: f64) -> Op {
         if self.r.gen_bool(p_lc) {
